@@ -469,6 +469,28 @@ func init() {
 				}
 			}
 		}
+		// a group that holds no router (yet, or any more): every request is the not-found handler's, and its panics
+		// are the group recovery's like everywhere else
+		for _, shape := range []string{"fresh", "last-router-removed", "only-router-rejects"} {
+			gl := &recLog{}
+			g := newGroup(mux.WithRecovery(func(w http.ResponseWriter, v any) { gl.calls = append(gl.calls, v); w.WriteHeader(500) }))
+			switch shape {
+			case "last-router-removed":
+				g.New("r1", nil).Handle("/x", hv.Route("hx"), nil, "GET")
+				g.Remove("r1")
+			case "only-router-rejects":
+				g.New("r1", mux.NewHosts(false, "other.com"))
+			}
+			for _, val := range []any{"boom", io.EOF} {
+				before := len(gl.calls)
+				o := hv.Serve(g, hv.Req{Method: "GET", Path: "/x", Host: "a.com", Fault: &hv.Fault{Site: "h", Val: val}})
+				rc.Add("states", 1)
+				if o.Paniced || len(gl.calls) != before+1 || !sameValue(gl.calls[len(gl.calls)-1], val) {
+					rc.Report(explore.Violation{Property: "C16", Clause: "C16.contained", Class: "escaped:group-without-routers", Config: "NewGroup(WithRecovery(f)), " + shape, Probe: fmt.Sprintf("GET /x: the group's not-found handler panics with %v", val),
+						Observed: fmt.Sprintf("escaped=%v (%v), recovery calls=%d", o.Paniced, o.Panic, len(gl.calls)-before), Expected: "contained: the group's recovery function called once with the value"})
+				}
+			}
+		}
 		explore.ParMap(rc, "c16/seq", items, func(i int, in c16Item, o simpleOut) { mergeSimple(rc, o, "requests") })
 	}})
 }
